@@ -16,6 +16,37 @@ def fdesc(f):
                                   "/plotted" if f["plotted"] else "", "" if f["hasA"] else "/noA") + "@" + f["d"]
 
 
+def stops_erase_nothing(v, d, seed, tier):
+    """C11, 'deleted only on request': real plots interrupted by graceful stops at generated windows (PlotGen) - after
+    every stop both tables of the unfinished plot must still be there.  Only file disappearance is judged here; the
+    rest of what the plot engine observes belongs to C10 / C07."""
+    drv = vlib.build("plotdrv")
+    behs, w = vlib.tlc_generate(d, "PlotGen.tla", "PlotGen.cfg", 60 if tier == "quick" else 600, 2, seed + 17)
+    scen = []
+    for i, b in enumerate(vlib.dedup(behs)):
+        st = dict(b[0], crash=False)
+        if st.get("stops"):
+            scen.append(dict(sc=30000 + i, seed=seed * 100003 + i, steps=[st]))
+    if not scen:
+        return 0
+    sf, tf = os.path.join(d, "stops.json"), os.path.join(d, "stops.ndjson")
+    json.dump(scen, open(sf, "w"))
+    vlib.run_driver(drv, sf, tf, ["-workers", str(min(vlib.NCPU, 12)), "-stall", "120"], timeout=1200)
+    for s_, t in zip(scen, vlib.read_traces(tf)):
+        if t.get("dead"):
+            raise vlib.Machinery("stop schedule did not run: %s" % t.get("note"))
+        e = t["ev"][0] if t["ev"] else {}
+        lost = e.get("fileslost") or []
+        gone = "no such file" in str(e.get("err", ""))
+        if lost or gone:
+            st = s_["steps"][0]
+            v.classify(dict(cause="table_erased_by_stop"),
+                       "plot of bit length %s stopped at windows %s: %s" % (st.get("bl"), st.get("stops"), "; ".join(lost) or e.get("err")),
+                       dict(scenario=s_, event={k: e.get(k) for k in ("res", "err", "fileslost", "resumptions")}))
+    log("stop schedules on the real plotter: %d (no table may disappear)" % len(scen))
+    return len(scen)
+
+
 def run(prop, tier, seed):
     v = vlib.Verdict(prop, tier, seed)
     d = vlib.scratch("c11-")
@@ -73,7 +104,8 @@ def run(prop, tier, seed):
         else:
             log("NOTE (belongs to C15): " + desc[:200])
     v.cov["traces_validated_against_impl"] += len(tr2)
-    v.cov["evaluations"] = len(scen) + len(sc2)
+    nstop = stops_erase_nothing(v, d, seed, tier)
+    v.cov["evaluations"] = len(scen) + len(sc2) + nstop
     v.cov["distinct_nontrivial"] = sum(1 for s in scen if any(f["hdr"] != "ok" or f["key"] == "kf" or f["legacy"] or not f["hasA"] for f in s["steps"]))
     v.cov["rule"] = ("directory contents of 1, 2 and 4 abstract plot files generated by TLC (good, wrong header kinds, foreign key, wrong ordinal, "
                      "legacy names, duplicates across two directories, missing table A, plotted / not) materialised as real files; non-trivial = "
